@@ -1298,3 +1298,233 @@ def rule_p(ctx: Ctx) -> None:
                                            f"a name that is not a member (e.g. the type token NULLABLE with two arguments) leaks KeyError")
     ctx.count("enum_lookups_by_computed_name", n)
     ctx.min_instances("enum_lookups_by_computed_name", n, 1)
+
+
+def rule_q(ctx: Ctx) -> None:
+    ctx.rule(
+        "C05.q",
+        "table-dispatched parser callables are called with keyword arguments they accept: a call `self.<TABLE>[key](self, kw=...)` (or of a local bound from the table, or with **kwargs) "
+        "either runs under try/except TypeError, or every entry of <TABLE> in every parser class accepts that keyword (named parameter or **kwargs) — otherwise the keyword that "
+        "selects the entry comes from the input and a non-accepting entry leaks TypeError",
+    )
+    repo = ctx.repo
+    # table name -> list of (module, entry key, callable node)
+    tables: dict[str, list[tuple[Module, str, ast.AST]]] = {}
+    for m in repo.modules.values():
+        if not (m.name == "sqlglot.parser" or m.name.startswith("sqlglot.parsers.")):
+            continue
+        for cls in m.of_type(ast.ClassDef):
+            for st in cls.body:
+                tg = st.targets[0] if isinstance(st, ast.Assign) and len(st.targets) == 1 else st.target if isinstance(st, ast.AnnAssign) else None
+                val = getattr(st, "value", None)
+                if isinstance(tg, ast.Name) and tg.id.isupper() and isinstance(val, ast.Dict):
+                    for k, v in zip(val.keys, val.values):
+                        if k is not None:
+                            tables.setdefault(tg.id, []).append((m, norm(k, 40), v))
+
+    def accepts(fn: ast.AST, kw: str) -> bool | None:
+        if isinstance(fn, ast.Lambda):
+            a = fn.args
+        else:
+            return None  # a name / attribute: not decided here
+        return a.kwarg is not None or kw in {x.arg for x in a.args + a.kwonlyargs}
+
+    n = 0
+    for m in repo.modules.values():
+        if not (m.name == "sqlglot.parser" or m.name.startswith("sqlglot.parsers.")):
+            continue
+        for f in m.funcs.values():
+            local_tbl: dict[str, str] = {}
+            for _round in range(3):
+                for st in walk_no_nested(f.node):
+                    if not (isinstance(st, ast.Assign) and len(st.targets) == 1 and isinstance(st.targets[0], ast.Name)):
+                        continue
+                    v = st.value
+                    # t.cast(T, x) / x or y keep the callable
+                    if isinstance(v, ast.Call) and (call_name(v) or "").split(".")[-1] == "cast" and len(v.args) == 2:
+                        v = v.args[1]
+                    src = None
+                    if isinstance(v, ast.Subscript) and isinstance(v.value, ast.Attribute) and v.value.attr.isupper() and norm(v.value.value) == "self":
+                        src = v.value.attr
+                    elif isinstance(v, ast.Call) and isinstance(v.func, ast.Attribute) and v.func.attr == "get" and isinstance(v.func.value, ast.Attribute) \
+                            and v.func.value.attr.isupper() and norm(v.func.value.value) == "self":
+                        src = v.func.value.attr
+                    elif isinstance(v, ast.Call) and isinstance(v.func, ast.Attribute) and v.func.attr == "get" and isinstance(v.func.value, ast.Name) and v.func.value.id in local_tbl:
+                        src = local_tbl[v.func.value.id]
+                    elif isinstance(v, ast.Name) and v.id in local_tbl:
+                        src = local_tbl[v.id]
+                    elif isinstance(v, ast.Attribute) and v.attr.isupper() and norm(v.value) == "self":
+                        src = v.attr  # an alias of the table itself (functions = self.FUNCTIONS)
+                    if src:
+                        local_tbl[st.targets[0].id] = src
+            for c in walk_no_nested(f.node):
+                if not isinstance(c, ast.Call) or not c.keywords:
+                    continue
+                tbl = None
+                if isinstance(c.func, ast.Subscript) and isinstance(c.func.value, ast.Attribute) and c.func.value.attr.isupper() and norm(c.func.value.value) == "self":
+                    tbl = c.func.value.attr
+                elif isinstance(c.func, ast.Name) and c.func.id in local_tbl:
+                    tbl = local_tbl[c.func.id]
+                if tbl is None or tbl not in tables:
+                    continue
+                n += 1
+                where = f.key
+                inst = f"{where}|{norm(c, 80)}"
+                cur: ast.AST = c
+                p_ = m.parent(cur)
+                guarded = False
+                while p_ is not None and p_ is not f.node:
+                    if isinstance(p_, ast.Try) and any(cur is x for x in p_.body) and _handlers_catch(p_, ("TypeError", "Exception")):
+                        guarded = True
+                        break
+                    cur, p_ = p_, m.parent(p_)
+                if guarded:
+                    ctx.ok(inst, {"call": norm(c, 80), "in": where, "protected": "inside try/except TypeError"})
+                    continue
+                kws = [k.arg for k in c.keywords]
+                bad = None
+                for kw in kws:
+                    for tm, key, fn in tables[tbl]:
+                        a = accepts(fn, kw) if kw is not None else (accepts(fn, "\0") if isinstance(fn, ast.Lambda) else None)
+                        if a is False:
+                            bad = (kw, tm, key, fn)
+                            break
+                    if bad:
+                        break
+                if bad is None:
+                    ctx.ok(inst, {"call": norm(c, 80), "in": where, "every_entry_accepts": kws})
+                else:
+                    kw, tm, key, fn = bad
+                    ctx.fail(m, c, where, c, f"`{norm(c, 80)}` passes {'**kwargs' if kw is None else kw + '='} to whichever entry of {tbl} the input selects, outside any try/except TypeError, "
+                                             f"but e.g. the entry {key} ({tm.name}:{getattr(fn, 'lineno', 0)}) does not accept it: that input leaks TypeError instead of a ParseError")
+    ctx.count("keyword_dispatch_sites", n)
+    ctx.min_instances("keyword_dispatch_sites", n, 3)
+
+
+LITERAL_TESTS = ("is_number", "is_int", "is_string")
+
+
+def _assertions_on_parse_results(tree: ast.AST) -> list[ast.Call]:
+    return [c for c in ast.walk(tree) if isinstance(c, ast.Call) and isinstance(c.func, ast.Attribute) and c.func.attr == "assert_is"]
+
+
+def rule_r(ctx: Ctx) -> None:
+    ctx.rule(
+        "C05.r",
+        "conversions and assertions on parsed nodes are guarded: in the parser modules every `<node>.to_py()` runs under a literal test of the same node "
+        "(<node>.is_number / .is_int / .is_string / isinstance(<node>, exp.Literal), also as `all(isinstance(a, exp.Literal) for a in args)` for elements of args) or under "
+        "try/except ValueError, and no `<node>.assert_is(<class>)` is applied to a node whose class depends on the input — to_py raises ValueError and assert_is AssertionError, "
+        "neither belongs to the library's error family",
+    )
+    repo = ctx.repo
+    ctx.require(len(_assertions_on_parse_results(ast.parse("q = self._parse_paren().assert_is(exp.Subquery)\n"))) == 1, "positive control failed: assert_is call not recognised")
+    n = 0
+    for m in repo.modules.values():
+        if not (m.name == "sqlglot.parser" or m.name.startswith("sqlglot.parsers.")):
+            continue
+        for c in _assertions_on_parse_results(m.tree):
+            n += 1
+            f = m.enclosing_func(c)
+            where = f.key if f else m.name
+            ctx.fail(m, c, where, c, f"`{norm(c, 70)}` asserts the class of a node built from the input: a different class leaks AssertionError instead of a ParseError")
+        for c in m.of_type(ast.Call):
+            if not (isinstance(c.func, ast.Attribute) and c.func.attr == "to_py" and not c.args):
+                continue
+            n += 1
+            f = m.enclosing_func(c)
+            where = f.key if f else m.name
+            recv = norm(c.func.value)
+            ok, why = False, ""
+            # the receiver may be a local bound from args[k] / seq_get(args, k)
+            from_args = None
+            if f is not None and isinstance(c.func.value, ast.Name):
+                for st in walk_no_nested(f.node):
+                    if isinstance(st, ast.Assign) and len(st.targets) == 1 and norm(st.targets[0]) == recv:
+                        v = st.value
+                        if isinstance(v, ast.Subscript) and isinstance(v.value, ast.Name):
+                            from_args = v.value.id
+                        elif isinstance(v, ast.Call) and (call_name(v) or "").split(".")[-1] == "seq_get" and v.args and isinstance(v.args[0], ast.Name):
+                            from_args = v.args[0].id
+            cur: ast.AST = c
+            p_ = m.parent(cur)
+            while p_ is not None and (f is None or p_ is not f.node) and not ok:
+                if isinstance(p_, ast.Try) and any(cur is x for x in p_.body) and _handlers_catch(p_, ("ValueError", "Exception")):
+                    ok, why = True, "inside try/except ValueError"
+                tests: list[ast.AST] = []
+                if isinstance(p_, ast.If) and cur in p_.body:
+                    tests.append(p_.test)
+                elif isinstance(p_, ast.IfExp) and cur is p_.body:
+                    tests.append(p_.test)
+                elif isinstance(p_, ast.BoolOp) and isinstance(p_.op, ast.And) and cur in p_.values:
+                    tests.extend(p_.values[: p_.values.index(cur)])
+                for t_ in tests:
+                    txt = norm(t_, 400)
+                    if any(f"{recv}.{k}" in txt for k in LITERAL_TESTS) or f"isinstance({recv}, exp.Literal)" in txt:
+                        ok, why = True, f"under `{norm(t_, 60)}`"
+                    elif from_args and "all(" in txt and "isinstance(" in txt and "exp.Literal) for " in txt and f" in {from_args})" in txt:
+                        ok, why = True, f"under `{norm(t_, 60)}` (every element of {from_args} is a literal)"
+                cur, p_ = p_, m.parent(p_)
+            inst = f"{where}|{norm(c, 60)}"
+            if ok:
+                ctx.ok(inst, {"conversion": norm(c, 60), "in": where, "protected": why})
+            else:
+                ctx.fail(m, c, where, c, f"`{norm(c, 60)}` converts a parsed node without a literal test of `{recv}` or a ValueError handler: for a column, a parameter or a malformed number "
+                                         f"the conversion leaks ValueError instead of a ParseError")
+    ctx.count("conversions_and_assertions", n)
+    ctx.min_instances("conversions_and_assertions", n, 5)
+
+
+def _stepped_overruns(tree: ast.AST) -> list[tuple[ast.For, ast.Subscript, int, int]]:
+    """`for i in range(a, len(X) - c, step)` (step >= 2) with a subscript X[i + k], k > c: the last round may index past the end."""
+    out = []
+    for lp in ast.walk(tree):
+        if not (isinstance(lp, ast.For) and isinstance(lp.target, ast.Name) and isinstance(lp.iter, ast.Call) and norm(lp.iter.func) == "range" and len(lp.iter.args) == 3):
+            continue
+        _a, stop, step = lp.iter.args
+        if not (isinstance(step, ast.Constant) and isinstance(step.value, int) and step.value >= 2):
+            continue
+        c_ = 0
+        ln = stop
+        if isinstance(stop, ast.BinOp) and isinstance(stop.op, ast.Sub) and isinstance(stop.right, ast.Constant) and isinstance(stop.right.value, int):
+            ln, c_ = stop.left, stop.right.value
+        if not (isinstance(ln, ast.Call) and norm(ln.func) == "len" and len(ln.args) == 1):
+            continue
+        coll = norm(ln.args[0])
+        i = lp.target.id
+        for b in lp.body:
+            for sub in ast.walk(b):
+                if isinstance(sub, ast.Subscript) and norm(sub.value) == coll and isinstance(sub.slice, ast.BinOp) and isinstance(sub.slice.op, ast.Add) \
+                        and isinstance(sub.slice.left, ast.Name) and sub.slice.left.id == i and isinstance(sub.slice.right, ast.Constant) and isinstance(sub.slice.right.value, int):
+                    k = sub.slice.right.value
+                    if k > c_:
+                        out.append((lp, sub, k, c_))
+    return out
+
+
+def rule_s(ctx: Ctx) -> None:
+    ctx.rule(
+        "C05.s",
+        "stepped walks over argument lists stay inside the list: in `for i in range(a, len(xs) - c, step)` with step >= 2, every subscript xs[i + k] has k <= c (hive's MAP builder "
+        "stops at len(args) - 1); with a larger k the last round indexes past the end when the length is not a multiple of the step — an argument count chosen by the input — "
+        "and leaks IndexError",
+    )
+    ctx.require(len(_stepped_overruns(ast.parse("for i in range(0, len(args), 2):\n    v = args[i + 1]\n"))) == 1, "positive control failed: stepped overrun not recognised")
+    ctx.require(len(_stepped_overruns(ast.parse("for i in range(0, len(args) - 1, 2):\n    v = args[i + 1]\n"))) == 0, "negative control failed: bounded stepped walk reported")
+    n = 0
+    for m in ctx.repo.modules.values():
+        if m.name.startswith(("sqlglot.executor", "sqlglot.planner")):
+            continue
+        for lp in m.of_type(ast.For):
+            if isinstance(lp.iter, ast.Call) and norm(lp.iter.func) == "range" and len(lp.iter.args) == 3 and isinstance(lp.iter.args[2], ast.Constant) \
+                    and isinstance(lp.iter.args[2].value, int) and lp.iter.args[2].value >= 2:
+                n += 1
+                f = m.enclosing_func(lp)
+                where = f.key if f else m.name
+                bad = _stepped_overruns(lp)
+                if not bad:
+                    ctx.ok(f"{where}|{norm(lp.iter, 60)}", None)
+                for _lp, sub, k, c_ in bad:
+                    ctx.fail(m, sub, where, sub, f"`{norm(sub)}` inside `for {norm(lp.target)} in {norm(lp.iter)}`: the walk stops at len - {c_} but reads {k} past the index, so a length that is not a "
+                                                 f"multiple of the step (an argument count chosen by the input) raises IndexError")
+    ctx.count("stepped_walks", n)
+    ctx.min_instances("stepped_walks", n, 2)
